@@ -162,7 +162,11 @@ impl<'a> Gen<'a> {
             nm.push(named("zz", int(1))); // no such field
         }
         if self.rng.chance(1, 25) {
-            nm[0] = named("n", strlit("not an int"));
+            for x in nm.iter_mut() {
+                if x["n"] == "n" {
+                    *x = named("n", strlit("not an int"));
+                }
+            }
         }
         c["named"] = J::Array(nm);
         c
@@ -1565,9 +1569,10 @@ impl<'a> Gen<'a> {
                 _ => json!({"k": "index", "e": {"k": "dict", "keys": [strlit("a")], "vals": [int(1)]}, "i": strlit("zz")}),
             }
         };
-        match self.rng.below(21) {
+        match self.rng.below(22) {
             12 | 13 | 14 => self.inline_order_stmt(),
             19 => self.annotated_stmt(),
+            20 => self.typeis_stmt(),
             15 => self.assigned_shapes_stmt(),
             16 => self.bool_simplify_stmt(),
             17 => self.known_method_stmt(),
@@ -1743,6 +1748,45 @@ impl<'a> Gen<'a> {
                     let h = self.fresh("v");
                     out.push(assign(&h, json!({"k": "list", "items": [var(&f)]})));
                     call(json!({"k": "index", "e": var(&h), "i": int(0)}), vec![x, y])
+                }
+            };
+            out.push(emit(c));
+        }
+        out
+    }
+
+    /// `def f(<one parameter>): return type(x) == "..."` is rewritten at the call site into a type
+    /// test: every way of declaring the one parameter x every way of calling -- the call rules still apply
+    fn typeis_stmt(&mut self) -> Vec<J> {
+        let f = self.fresh("f");
+        let x = self.fresh("p");
+        let kind = self.pick(&["normal", "kwonly", "normal_default", "kwonly_default", "args", "kwargs"]);
+        let p = match kind {
+            "normal" => param(&x, "normal", absent()),
+            "kwonly" => param(&x, "kwonly", absent()),
+            "normal_default" => param(&x, "normal", int(3)),
+            "kwonly_default" => param(&x, "kwonly", strlit("d")),
+            "args" => param(&x, "args", absent()),
+            _ => param(&x, "kwargs", absent()),
+        };
+        let tn = self.pick(&["int", "string", "tuple", "dict", "NoneType"]);
+        let mut out = vec![json!({"k": "def", "name": f, "params": [p],
+            "body": [{"k": "return", "e": bin("==", callf("type", vec![var(&x)]), strlit(tn))}]})];
+        for _ in 0..(2 + self.rng.below(3)) {
+            let v = self.pick(&[int(1), strlit("s"), none(), tuple(vec![int(1)])]);
+            let c = match self.rng.below(6) {
+                0 | 1 => call(var(&f), vec![v]),
+                2 => {
+                    let mut c = call(var(&f), vec![]);
+                    c["named"] = json!([named(&x, v)]);
+                    c
+                }
+                3 => call(var(&f), vec![]),
+                4 => call(var(&f), vec![v, int(2)]),
+                _ => {
+                    let mut c = call(var(&f), vec![]);
+                    c["named"] = json!([named("other", v)]);
+                    c
                 }
             };
             out.push(emit(c));
